@@ -793,6 +793,11 @@ func configs(prop, tier string) []*Config {
 			// (keys carry the line number, so that every batch has its own content)
 			{Path: "reader", Sources: []string{shapes[11]}, Matcher: "re", Extract: exFull, Batch: 2, Workers: 1, Readers: 1, Buffer: 8, Agg: true},
 			{Path: "reader", Sources: []string{shapes[11]}, Matcher: "re", Extract: exFull, Batch: 2, Workers: 1, Readers: 1, Buffer: 1, Agg: true},
+			// 16 one-line batches: enough to back the whole pipeline up (loop holding
+			// one batch, match channel full, worker holding one, batch channel full,
+			// reader sending) at the moment the render timer fires - a lock taken by
+			// the status line and held across a channel send closes a cycle there
+			{Path: "reader", Sources: []string{shapes[11]}, Matcher: "re", Extract: exFull, Batch: 1, Workers: 1, Readers: 1, Buffer: 1, Agg: true},
 		} {
 			lc.ErrSrc, lc.Bound = -1, bound-1
 			l := lc
